@@ -31,7 +31,8 @@ def run(res, tier="quick", seed=0, widen=False):
     res.rule = ("kernel level: all code sequences of length <= %d over {-1,0,1} (sampled at the top length in quick) x %d seeded value assignments over a "
                 "5-symbol alphabet containing null and values above 2^53 x {cumsum,cummin,cummax,cumcount} x skip_na x {no mask, boolean mask} x "
                 "dtype classes f8,i8,bool,datetime64,timedelta64 (+f4,i4); API level: GroupBy.cum* on pandas Series with null keys; "
-                "non-trivial = >= 2 groups or a null key/value or a mask" % (maxlen, per))
+                "float64 cumsum / cummin / cummax (0-16 rows, 1-4 groups, null codes, masks, skip_na on/off, magnitudes 5e-324..1e308, infinities, NaN, -0.0) BIT FOR BIT against "
+                "the primitive-float model Model/CumFloat.v evaluated inside Coq; non-trivial = >= 2 groups or a null key/value or a mask" % (maxlen, per))
     cases = []
     for L in range(0, maxlen + 1):
         for codes in itertools.product([-1, 0, 1], repeat=L):
@@ -137,6 +138,76 @@ def run(res, tier="quick", seed=0, widen=False):
         if bad or list(out.index) != idx_labels:
             res.violations.append(dict(sig=dict(level="api", op=op, what="wrong-prefix"), case=case, observed=str(got), expected=str(spec),
                                        what=f"GroupBy.cum{op} differs from the prefix reduction at rows {bad}"))
+    float_model_stream(res, rng, tier, nbf)
+
+
+def float_model_stream(res, rng, tier, nbf):
+    """Tie A in IEEE-754 for the cumulative kernels on float64: numba.cumsum / cummin / cummax (skip_na on and off, with and
+    without a boolean mask, null codes) against Model/CumFloat.v - a bit-exact transcription in Coq's primitive floats - evaluated
+    by vm_compute: every output row, every magnitude, infinities, NaN, -0.0."""
+    import os
+    import subprocess
+    import warnings
+    from ..common import VERIF, COQ
+    alpha = [float("nan"), 1.0, 2.5, -3.0, 0.5, 0.1, 0.7, 4.0, 0.3, 1e16, -1e16, 1e8 + 0.1, float(2**60), -7e15, 1e9 + 0.125, float("inf"), float("-inf"), 1e308, -1e308, 5e-324, -0.0, 0.0, 1e-300, 1e150]
+    ops = ["sum", "min", "max"]
+
+    def lit(x):
+        x = float(x)
+        if x != x:
+            return "nan"
+        if x == float("inf"):
+            return "infinity"
+        if x == float("-inf"):
+            return "neg_infinity"
+        h = x.hex()
+        return "(" + h + ")" if h.startswith("-") else h
+    cases = []
+    for t in range(400 if tier == "quick" else 4000):
+        L = rng.randint(0, 16)
+        ng = rng.randint(1, 4)
+        keys = [rng.choice(list(range(ng)) + [-1]) if rng.random() < 0.9 else rng.randrange(ng) for _ in range(L)]
+        vals = [rng.choice(alpha if rng.random() < 0.6 else alpha[:9]) for _ in range(L)]
+        o = rng.randrange(3)
+        sk = rng.random() < 0.6
+        mask = [rng.random() < 0.7 for _ in range(L)] if rng.random() < 0.4 and L > 0 else None
+        case = dict(level="float-model", op=ops[o], skip_na=sk, keys=keys, values=[lit(v) for v in vals], mask=mask, ngroups=ng)
+        with warnings.catch_warnings():
+            warnings.simplefilter("ignore")
+            try:
+                out = getattr(nbf, "cum" + ops[o])(np.array(keys, dtype="int64"), np.array(vals, dtype="float64"), ng, None if mask is None else np.array(mask, dtype=bool), sk)
+            except Exception as e:  # noqa: BLE001
+                res.violations.append(dict(sig=dict(level="float-model", op=ops[o], what="raised"), case=case, observed=repr(e)[:200], expected="one output per row",
+                                           what="numba.cum* raised on a well-formed float64 input"))
+                continue
+        cases.append((o, sk, keys, vals, mask, [float(x) for x in np.asarray(out).tolist()]))
+        res.note_case(repr(("cum-float-model", o, sk, keys, [lit(v) for v in vals], mask)), True)
+        res.count("stream", "cum-float-model")
+    d = VERIF / ".cache" / "cfloat" / str(os.getpid())
+    d.mkdir(parents=True, exist_ok=True)
+
+    def row(c):
+        o, sk, keys, vals, mask, out = c
+        m = mask if mask is not None else [True] * len(keys)
+        rows = "; ".join("((%d)%%Z, %s, %s)" % (k, lit(v), "true" if b else "false") for k, v, b in zip(keys, vals, m))
+        return f"({o}%nat, {'true' if sk else 'false'}, [{rows}], [{'; '.join(lit(v) for v in out)}])"
+    (d / "cases.v").write_text("From Coq Require Import List ZArith PrimFloat.\nFrom GL Require Import Model.CumFloat.\nImport ListNotations.\nOpen Scope float_scope.\n"
+                               "Definition cases : list (nat * bool * list (Z * float * bool) * list float) :=\n  [" + ";\n  ".join(row(c) for c in cases) + "].\n"
+                               "Eval vm_compute in map check_cum cases.\n")
+    p = subprocess.run(["timeout", "900", "coqc", "-Q", str(COQ / "theories"), "GL", "cases.v"], cwd=d, stdout=subprocess.PIPE, stderr=subprocess.STDOUT)
+    txt = p.stdout.decode(errors="replace")
+    flags = [w for w in txt.replace("[", " ").replace("]", " ").replace(";", " ").split() if w in ("true", "false")]
+    for f in d.iterdir():
+        f.unlink()
+    d.rmdir()
+    if p.returncode != 0 or len(flags) != len(cases):
+        res.model_mismatches.append(dict(case="cum-float-model", impl="-", model=f"coqc failed or printed {len(flags)} results for {len(cases)} cases: " + txt[-400:]))
+        return
+    for c, ok in zip(cases, flags):
+        if ok != "true":
+            o, sk, keys, vals, mask, out = c
+            res.model_mismatches.append(dict(case=dict(level="float-model", op=ops[o], skip_na=sk, keys=keys, values=[lit(v) for v in vals], mask=mask),
+                                             impl=str([lit(v) for v in out]), model="Model/CumFloat.cum_f gives another bit pattern in some row"))
 
 
 def replay(payload):
